@@ -343,7 +343,7 @@ pub fn run(tier: &str) -> i32 {
     let n0 = progs.len();
     for i in 0..n0 {
         if tier == "thorough" || hash64(&progs[i].key) % 4 == 1 {
-            for how in ["reverse", "entries-first"] {
+            for how in ["reverse", "entries-first", "interleave"] {
                 if let Some(src) = reorder_decls(&progs[i].src, how) {
                     progs.push(Prog { key: format!("{}|decl-order={how}", progs[i].key), src, expect: progs[i].expect, groups: progs[i].groups });
                 }
